@@ -50,6 +50,59 @@ type symSigned struct {
 	honest          bool // signed by A under the signaling context over this body, claiming A
 }
 
+var derivedVariants = []string{"changed-body", "changed-body", "changed-ht", "att-third", "att-garbage", "changed-seq", "replay"}
+
+// derive builds a variant of an earlier (honest) message that keeps some
+// fields of that same message and changes others: the stateful adversary.
+func (t *symtab) derive(orig *signaling_rpc.SessionMsg, variant string, k int) *signaling_rpc.SessionMsg {
+	s0 := t.lookup(orig)
+	if s0 == nil {
+		panic("derive: unknown message")
+	}
+	m := orig.CloneVT()
+	s := *s0
+	switch variant {
+	case "changed-body":
+		// same signature, sender and sequence number, another body
+		d := append([]byte{}, m.SignedMsg.Data...)
+		if k%3 == 0 {
+			d = append(d, byte(97+k%4))
+		} else {
+			d[k%len(d)] ^= 1 << uint(k%7)
+		}
+		m.SignedMsg.Data = d
+		s.data = hx.Bytes(d)
+		s.honest = false
+	case "changed-ht":
+		if m.SignedMsg.Signature.HashType == hash.HashType_HashType_BLAKE3 {
+			m.SignedMsg.Signature.HashType = hash.HashType_HashType_SHA256
+		} else {
+			m.SignedMsg.Signature.HashType = hash.HashType_HashType_BLAKE3
+		}
+		s.ht = hx.U(uint64(m.SignedMsg.Signature.HashType))
+		s.honest = false
+	case "att-third":
+		pk, err := crypto.MarshalPublicKey(t.ids[2].priv.GetPublic())
+		if err != nil {
+			panic(err)
+		}
+		m.SignedMsg.Signature.PubKey = pk
+		s.att = hx.App("AttKey", hx.Nat(2))
+	case "att-garbage":
+		m.SignedMsg.Signature.PubKey = []byte{0xfe, byte(k), 0x01}
+		s.att = "AttBad"
+		s.honest = false
+	case "changed-seq":
+		m.Seqno = m.Seqno + 1 + uint64(k%3)
+	case "replay":
+	default:
+		panic("unknown variant " + variant)
+	}
+	s.class = s0.class + "~" + variant
+	t.add(m, &s)
+	return m
+}
+
 type symtab struct {
 	ids []*identity
 	tab map[string]*symSigned
@@ -626,7 +679,7 @@ func (r *scriptRunner) apply(o *sop) {
 		r.descOps = append(r.descOps, "resp(queued together with the previous one)")
 	}
 	if st.Recv != nil {
-		if sy := r.tab.lookup(st.Recv); sy == nil || !sy.honest {
+		if sy := r.tab.lookup(st.Recv); sy == nil || !sy.honest || !cryptoAuthentic(st.Recv, r.ids[1]) {
 			cl := "unknown"
 			if sy != nil {
 				cl = sy.class
